@@ -36,6 +36,13 @@ CLAIMED = {
         "Trusts the harness's own interpolation and trapezoid; tolerance 1e-9 of the local magnitude; domains with gaps >= 1e-2.",
         "DESIGN.md section 6 C19",
     ),
+    "C02": (
+        "Hypothesis property-based testing against the harness's own trapezoid of the physically mixed spectrum and an explicit-loop K(Q+baseline); adaptation fixed-point identities",
+        "Generated estimators (2-5 filters, 1-8 sources, scalar-step and array domains, K scalar/vector/matrix, baseline none/scalar/vector) with 1-D to 3-D intensity batches; "
+        "non-square systems make transposition defects visible.",
+        "Trusts the harness's trapezoid formula; tolerance 1e-10 of sum|terms|.",
+        "DESIGN.md section 6 C02",
+    ),
 }
 
 PENDING_REASON = "check not built yet in this revision (planned, see DESIGN.md section 6); not claimed until its check runs quietly on the unchanged tree"
